@@ -691,7 +691,7 @@ fill_mly_ymd(
 
 		if (dd > 0 && (unsigned int)dd <= ndim) {
 			;
-		} else if (dd < 0 && ndim + 1U + dd > 0) {
+		} else if (dd < 0 && (int)ndim + 1 + dd > 0) {
 			dd += ndim + 1U;
 		} else {
 			continue;
@@ -734,7 +734,7 @@ fill_yly_ymd_all_m(
 
 			if (dd > 0 && (unsigned int)dd <= ndim) {
 				;
-			} else if (dd < 0 && ndim + 1U + dd > 0) {
+			} else if (dd < 0 && (int)ndim + 1 + dd > 0) {
 				dd += ndim + 1U;
 			} else {
 				continue;
